@@ -428,6 +428,10 @@ def r3_run_sentinels(ctx: Ctx) -> None:
                 ctx.count("run_sites")
                 cand = c.args[0] if c.args else None
                 lit = None
+                if isinstance(cand, ast.Name):
+                    defs0 = [n for n in walk_no_nested(fn.node) if isinstance(n, ast.Assign) and unparse(n.targets[0]) == cand.id]
+                    if len(defs0) == 1 and isinstance(defs0[0].value, ast.Subscript):
+                        cand = defs0[0].value
                 if isinstance(cand, ast.Constant) and isinstance(cand.value, str):
                     lit = cand.value
                 elif isinstance(cand, ast.Name):
